@@ -33,14 +33,15 @@ ASSUMPTIONS = [
 CORE12 = None
 
 
-def tree(q):
-    """Build q bottom-up so that a compound is composed from the very operand objects we also evaluate."""
+def tree(q, combined=False):
+    """Build q bottom-up so that a compound is composed from the very operand objects we also evaluate.
+    combined: see qast.build (test functions with non-bool results are wrapped when they are operands of & or |)."""
     if q[0] == "leaf":
         try:
-            return (qast.build(q), ())
+            return (qast.build(q, combined), ())
         except Exception as e:
             raise Violation("build", {"q": q, "p": None}, "building the well-formed query %s through the DSL raised %r" % (qast.show(q), e))
-    kids = tuple(tree(s) for s in q[1:])
+    kids = tuple(tree(s, combined or q[0] != "not") for s in q[1:])
     if q[0] == "not":
         b = ~kids[0][0]
     elif q[0] == "and":
